@@ -118,7 +118,7 @@ def main():
                 r = subprocess.run(cl, env=env, capture_output=True, text=True)
                 lines = [l for l in r.stdout.split("\n") if l.startswith(("VIOLATION", "  oracle", "KNOWN", "HARNESS", c))]
                 print("\n".join(lines[-8:]))
-                meta["detected_by"]["%s@seed%d" % (c, seed)] = {"exit": r.returncode, "wall_s": round(time.time() - t),
+                meta.setdefault("detected_by", {})["%s@seed%d" % (c, seed)] = {"exit": r.returncode, "wall_s": round(time.time() - t),
                                                               "first": next((l.strip() for l in lines if l.startswith("  oracle")), None)}
             json.dump(meta, open(os.path.join(d, "meta.json"), "w"), indent=1)
             return 0
